@@ -69,6 +69,26 @@ def exec (D : Int) : List Att → Nat → Bool → Res
 def stage (sendResolved : Bool) (nFiring : Nat) (D : Int) (atts : List Att) : Res :=
   if !sendResolved ∧ nFiring = 0 then .success 0 else exec D atts 0 false
 
+/-! ### HTTP integrations (notify/webhook `Notifier.Notify`): what one request does -/
+
+/-- the endpoint answered with a status code, or the integration's own per-request `timeout`
+    expired first (the flush context being still alive) -/
+inductive Http where
+  | status (code : Nat)
+  | timeout
+  deriving DecidableEq, Repr
+
+/-- `Retrier.Check` without extra retry codes (2xx ok, 5xx recoverable, anything else not), and the
+    transport-error branch of `Notify` (`return true, err`): a request cut by the per-request
+    timeout is a recoverable failure. -/
+def httpOutcome : Http → Outcome
+  | .timeout => .recoverable
+  | .status c => if c / 100 = 2 then .ok else if c / 100 = 5 then .recoverable else .unrecoverable
+
+/-- the attempt a request made at `start` amounts to: a timed-out request takes `timeout` -/
+def httpAtt (timeout start : Int) (h : Http) : Att :=
+  { start := start, out := httpOutcome h, dur := match h with | .timeout => timeout | .status _ => 0 }
+
 /-! ### timing acceptor -/
 
 def initialInterval : Int := 500000000
